@@ -330,3 +330,47 @@ func VHC13SameLine() {
 	vh.Reach("same-line statements evaluated")
 	vh.Assert(k == OK && got == c[1], "C13: a statement ended by ; may be followed by another on the same line: "+lbl(c[0]))
 }
+
+func c13Punct(t string) bool {
+	return len(t) == 1 && strings.IndexByte("()[]{},;", t[0]) >= 0
+}
+
+// c13Tight: may the blank between two adjacent tokens be dropped?
+func c13Tight(t, next string) bool {
+	if t == "\n" || next == "\n" {
+		return false
+	}
+	return c13Punct(t) || c13Punct(next) || next[0] == '$'
+}
+
+// VHC13Adjacent: blanks between two tokens are optional wherever the tokens cannot run
+// into each other: next to brackets, commas, semicolons and names that begin with `$`
+// (`print$.a`, `in$`, `(x)`), the program means the same without the blank.
+func VHC13Adjacent() {
+	pi := vh.Choose("prog", len(c13Corpus))
+	toks := c13Corpus[pi]
+	var gaps []int
+	for i := 0; i+1 < len(toks); i++ {
+		if c13Tight(toks[i], toks[i+1]) {
+			gaps = append(gaps, i)
+		}
+	}
+	g1 := gaps[vh.Choose("gap", len(gaps))]
+	all := vh.Choose("all", 2) == 1 // every such blank removed at once
+	src := ""
+	for i, t := range toks {
+		src += t
+		if i+1 < len(toks) {
+			tight := i == g1
+			if all {
+				tight = c13Tight(t, toks[i+1])
+			}
+			if !tight {
+				src += " "
+			}
+		}
+	}
+	got, k := c13Run(src)
+	vh.Reach("tight layout evaluated")
+	vh.Assert(k == OK && got == c13Gold[pi], "C13: a blank next to a bracket, comma, semicolon or $-name is optional: "+lbl(src))
+}
